@@ -180,6 +180,11 @@ class Sampler:
             return {"int": r.choice([0, 1])}
         if kt == "float64":
             c = r.random()
+            if self.wire_domain and c < 0.2:
+                # the wire domain is every bit pattern: infinities, quiet / signalling NaNs with payloads
+                q = r.choice([0x7FF0000000000000, 0xFFF0000000000000, 0x7FF8000000000000, 0x7FF0000000000001,
+                              0xFFF8000000000123, 0x7FFFFFFFFFFFFFFF])
+                return {"f64": [q >> 63, 2047, [(q >> i) & 1 for i in range(52)]]}
             if c < 0.5:
                 return afloat(r.choice([0.0, -0.0, 1.0, -1.5, 5e-324, 1.7976931348623157e308,
                                         -2.2250738585072014e-308, 0.1, 123456.789]))
